@@ -248,11 +248,11 @@ def cmdOf (c : Stack) (ops : List (Op V)) : Stack := ops.foldl cmdStep c
 
 theorem step_cmd (derive : Bool → Stack → Stack) (one : V) (s : St V) (op : Op V) :
     (step derive one s op).cmd = cmdStep s.cmd op := by
-  cases op <;> simp [step, cmdStep, setCmd, editRow, notify, setConsts, setFitness, ensure_cmd]
+  cases op <;> simp [step, cmdStep, setCmd, editRow, notify, setConsts, setFitness, resetFlag, ensure_cmd]
 
 theorem step_useSimp (derive : Bool → Stack → Stack) (one : V) (s : St V) (op : Op V) :
     (step derive one s op).useSimp = s.useSimp := by
-  cases op <;> simp [step, setCmd, editRow, notify, setConsts, setFitness, ensure_useSimp]
+  cases op <;> simp [step, setCmd, editRow, notify, setConsts, setFitness, resetFlag, ensure_useSimp]
 
 /-! ## two objects side by side (source and copy) -/
 
@@ -302,6 +302,7 @@ theorem inv_write (derive : Bool → Stack → Stack) (one : V) (s : St V) (w : 
   | setConsts p => cases hw
   | observe => cases hw
   | setFitness v => cases hw
+  | resetFlag => cases hw
 
 /-! ## concrete data for the non-vacuity examples of C18 -/
 
